@@ -67,7 +67,7 @@ def expand (vars : Vars) (value : Str) : Expanded :=
   else
     match reparseArguments out with
     | .ok (some vs) => .multi vs
-    | .ok none => .none
+    | .ok none => .multi []
     | .error _ => .none
 
 /-- `bind_command_arguments` -/
